@@ -30,8 +30,16 @@ inductive Op where
   | delegate (creator : Addr) (val : ValAddr) (amount : Int)
   | undelegate (creator : Addr) (val : ValAddr) (amount : Int)
   | restart
+  | genesis
   | unmodelled (k : String)
   deriving Repr, Inhabited
+
+/-- what ExportGenesis → Validate → InitGenesis of the six modules preserves: every store that has
+    a genesis field. The fault stores, the fishing-reward ledger and the super-node cursor have none
+    (x/node/genesis.go), so they come back empty. -/
+def exportImport (s : State) : State :=
+  { s with faults := [], faultIdx := [], fishing := [], nodeRound := none,
+           orderCount := some s.getOrderCount }
 
 /-- baseapp atomicity: a failing (or panicking) message leaves the state unchanged. -/
 def atomic (s : State) (r : TxM State) : Res × State :=
@@ -77,6 +85,7 @@ def stepC (e : Env) (s : State) : Op → Res × State
   | .delegate _ _ _ => (.ok, s)
   | .undelegate _ _ _ => (.ok, s)
   | .restart => (.ok, s)
+  | .genesis => (.ok, exportImport s)
   | .unmodelled _ => (.ok, s)
 
 /-- one operation on the whole system: committed state + package variable -/
@@ -85,6 +94,7 @@ def step (e : Env) (y : Sys) (op : Op) : Res × Sys :=
   | .delegate c v a => stakeStep y.st (stakeDelegate e y.st y.global c v a)
   | .undelegate c v a => stakeStep y.st (stakeUndelegate e y.st y.global c v a)
   | .restart => (.ok, ⟨y.st, 0⟩)
+  | .genesis => (.ok, ⟨exportImport y.st, y.global⟩)
   | op => ((stepC e y.st op).1, ⟨(stepC e y.st op).2, y.global⟩)
 
 end SaoVerif
